@@ -7,6 +7,8 @@ extern crate sha2;
 extern crate sha3;
 use ff::{Field, PrimeField, PrimeFieldRepr, SqrtField};
 use pairing::bls12_381::*;
+use pairing::hash_to_curve::HashToCurve;
+use pairing::map_to_curve::MapToCurve;
 use pairing::hash_to_field::{hash_to_field, BaseFromRO, ExpandMsg, ExpandMsgXmd, ExpandMsgXof, FromRO};
 use pairing::serdes::SerDes;
 use pairing::signum::{Sgn0Result, Signum0};
@@ -140,6 +142,8 @@ fn main() {
             let r = std::panic::catch_unwind(|| match variant.as_str() {
                 "xmd256" => ExpandMsgXmd::<sha2::Sha256>::expand_message(&msg, &dst, len),
                 "xmd512" => ExpandMsgXmd::<sha2::Sha512>::expand_message(&msg, &dst, len),
+                "xmd384" => ExpandMsgXmd::<sha2::Sha384>::expand_message(&msg, &dst, len),
+                "xmd224" => ExpandMsgXmd::<sha2::Sha224>::expand_message(&msg, &dst, len),
                 "xof128" => ExpandMsgXof::<sha3::Shake128>::expand_message(&msg, &dst, len),
                 _ => ExpandMsgXof::<sha3::Shake256>::expand_message(&msg, &dst, len),
             });
@@ -155,6 +159,29 @@ fn main() {
                 ("fr", _) => { for x in hash_to_field::<Fr, ExpandMsgXof<sha3::Shake128>>(&msg, &dst, count) { out.push(frh(&x)); } }
                 ("fq2", "xmd256") => { for x in hash_to_field::<Fq2, ExpandMsgXmd<sha2::Sha256>>(&msg, &dst, count) { o2(&x, &mut out); } }
                 _ => { for x in hash_to_field::<Fq2, ExpandMsgXof<sha3::Shake128>>(&msg, &dst, count) { o2(&x, &mut out); } }
+            }
+        }
+        // ---- the hashing API next to its composition from hash_to_field and the public map: out = hash_to_curve, encode_to_curve, map2(u0, u1), map(u);
+        //      tag = uncompressed bytes of hash_to_curve ":" of encode_to_curve
+        "h2c" => {
+            let msg = hex_bytes(&e.s("msg")); let dst = hex_bytes(&e.s("dst"));
+            macro_rules! h2c { ($G:ident, $F:ident, $X:ty, $outp:ident) => {{
+                let ro = <$G as HashToCurve<$X>>::hash_to_curve(&msg, &dst);
+                let nu = <$G as HashToCurve<$X>>::encode_to_curve(&msg, &dst);
+                let u2 = hash_to_field::<$F, $X>(&msg, &dst, 2);
+                let u1 = hash_to_field::<$F, $X>(&msg, &dst, 1);
+                let cro = <$G as MapToCurve<$G>>::map2_to_curve(&u2[0], &u2[1]);
+                let cnu = <$G as MapToCurve<$G>>::map_to_curve(&u1[0]);
+                tag = format!("{}:{}", bytes_hex(ro.into_affine().into_uncompressed().as_ref()), bytes_hex(nu.into_affine().into_uncompressed().as_ref()));
+                for p in [ro, nu, cro, cnu].iter() { let mut o = Vec::new(); $outp(p, &mut o); out.push(o.join(",")); }
+            }}; }
+            match (e.s("g").as_str(), e.s("variant").as_str()) {
+                ("g1", "xmd256") => h2c!(G1, Fq, ExpandMsgXmd<sha2::Sha256>, out_g1),
+                ("g1", "xmd512") => h2c!(G1, Fq, ExpandMsgXmd<sha2::Sha512>, out_g1),
+                ("g1", _) => h2c!(G1, Fq, ExpandMsgXof<sha3::Shake128>, out_g1),
+                ("g2", "xmd256") => h2c!(G2, Fq2, ExpandMsgXmd<sha2::Sha256>, out_g2),
+                ("g2", "xmd512") => h2c!(G2, Fq2, ExpandMsgXmd<sha2::Sha512>, out_g2),
+                _ => h2c!(G2, Fq2, ExpandMsgXof<sha3::Shake128>, out_g2),
             }
         }
         // ---- multi-scalar multiplication: points p0.., scalars k0.. (n of each unless np / nk say otherwise)
